@@ -136,6 +136,9 @@ func Assert(c bool, label string) {
 
 func Cover(label string) { st.Covered = append(st.Covered, label) }
 
+// Covers returns the labels reached by Cover during this run.
+func Covers() []string { return st.Covered }
+
 // Known reports whether a finding id is listed as an open known finding.
 func Known(id string) bool {
 	for _, k := range st.Known {
